@@ -158,6 +158,8 @@ def parseEv (line : String) : Option Ev :=
       | _ => none
     if h.startsWith "h" then pure (Ev.op idn hn req) else none
   | ["POLL", t] => (parseTask t).map Ev.poll
+  | ["HOLD", t] => (parseTask t).map Ev.hold
+  | ["RELEASE", t] => (parseTask t).map Ev.release
   | ["DROP", t] =>
     if t.startsWith "rsp" then (pNat (t.drop 3).toString).map Ev.dropRsp else (parseTask t).map Ev.drop
   | ["STREAM", id] => (pNat id).map Ev.stream
